@@ -58,6 +58,9 @@ pub fn orswot_reads(s: &OS) -> String {
     it.sort();
     let parts: Vec<String> = it.iter().map(|(m, c)| format!("{m}:{c}")).collect();
     out += &format!(" iter=[{}]", parts.join(";"));
+    // `ReadCtx::split` keeps both clocks; `Orswot::clock()` is the set clock
+    let (_, sp) = s.read().split();
+    out += &format!(" split={}/{} clk={}", clock(&sp.add_clock), clock(&sp.rm_clock), clock(&s.clock()));
     out
 }
 
